@@ -199,4 +199,40 @@ func ZZ_CLI_ExitStatus() {
 	zz.Reach("end")
 }
 
+// ZZ_C12_QueryFlagsMeanDry: the history harness checks that an Executor in dry mode leaves
+// the project tree alone for --dry and --status; this lemma closes the gap to the command
+// line: run() with --dry or --status builds an Executor that is in dry mode (observed where
+// the Taskfile would be read), whatever the other flags.
+func ZZ_C12_QueryFlagsMeanDry() {
+	flags.Dry = zz.Bool("flag_dry")
+	flags.Status = zz.Bool("flag_status")
+	flags.Force = zz.Bool("flag_force")
+	flags.Summary = zz.Bool("flag_summary")
+	flags.Init = false
+	flags.Silent = true
+	zzTF = &ast.Taskfile{Version: semver.MustParse("3"), Vars: ast.NewVars(), Env: ast.NewVars(), Tasks: ast.NewTasks()}
+	zzTF.Tasks.Set("show", zzNewTask("show", &ast.Cmd{Cmd: "probe a"}))
+	zzArgv = []string{"show"}
+	zzDash = -1
+	zzCommands = nil
+	zzCmdStatus = nil
+	zzSeenDry, zzSawExecutor = false, false
+	_ = run()
+	zz.Assert(zzSawExecutor, "executor-built")
+	zz.Assert(zzSeenDry == (flags.Dry || flags.Status), "dry-and-status-put-the-executor-in-dry-mode")
+	if flags.Dry || flags.Status {
+		zz.Assert(len(zzCommands) == 0, "query-runs-no-command")
+	}
+	flags.Dry, flags.Status, flags.Force, flags.Summary = false, false, false, false
+	if zz.Twin() {
+		zz.Assert(false, "twin")
+	}
+	zz.Reach("end")
+}
+
+var (
+	zzSeenDry     bool
+	zzSawExecutor bool
+)
+
 var _ = interp.NewExitStatus
